@@ -10,8 +10,8 @@ theorem oooIds_map (l : List PendOoo) : oooIds (l.map Chunk.ooo) = l.map (·.id)
 theorem oooIds_tailChunk (t : Str) : oooIds (tailChunk t) = [] := by unfold tailChunk; split <;> rfl
 
 /-- the state after `to_html_stream_out_of_order()` satisfies the invariant -/
-theorem ORel_start (prog : List Op) (hw : OooWf prog) (hc : cleanOps prog = true) (done0 : List FId) :
-    ORel (oooDocOps prog) [] (startStream true done0 prog).b ∧ (startStream true done0 prog).b.pendingOoo = [] := by
+theorem ORel_start (S : Sem) (prog : List Op) (hw : OooWf prog) (hc : cleanOps prog = true) (done0 : List FId) :
+    ORel S prog done0 [] (startStream true done0 prog).b ∧ (startStream true done0 prog).b.pendingOoo = [] := by
   have hids := startStream_ids prog hw done0
   unfold startStream at hids ⊢
   simp only [if_true] at hids ⊢
@@ -40,12 +40,8 @@ theorem ORel_start (prog : List Op) (hw : OooWf prog) (hc : cleanOps prog = true
       exact List.mem_map.2 ⟨K, hK, rfl⟩
     obtain ⟨j, hj, he⟩ := hids.1 _ this
     exact ⟨j, hj, Option.some.inj he⟩
-  let σ : List Nat → Option Str := fun J => (ps.find? (fun q => q.id == some J)).map nodeDoc
-  have hk : Knows σ ps := by
-    intro q hq J hJ
-    simp only [σ, find_node hndIds hq hJ, Option.map_some]
-  refine ⟨⟨[], [], segs, ps, σ, ?_⟩, hfin.2.2.2⟩
-  refine ⟨rfl, by rw [hfin.2.1]; rfl, hfin.2.2.1, hfin.1, by simp, h4, ?_, by simp [tplIds], ?_, ?_, ?_, ?_, ?_, ?_, ?_, ?_⟩
+  refine ⟨⟨[], [], segs, ps, ?_⟩, hfin.2.2.2⟩
+  refine ⟨rfl, by rw [hfin.2.1]; rfl, hfin.2.2.1, hfin.1, by simp, h4, ?_, by simp [tplIds], ?_, ?_, ?_, ?_, ?_, ?_, ?_⟩
   · simp only [List.append_nil, allIds, List.nil_append]
     exact nodup_of_map_some (by rw [h5]; exact hndIds)
   · intro p hp
@@ -66,8 +62,10 @@ theorem ORel_start (prog : List Op) (hw : OooWf prog) (hc : cleanOps prog = true
       have : some I ∈ (holeIds segs).map some := by rw [h5]; exact List.mem_map.2 ⟨q, hq, hqI⟩
       obtain ⟨K, hK, he⟩ := List.mem_map.1 this
       cases he; exact hK
-  · rw [hfin.2.2.2, List.append_nil]; exact hk
-  · simp only [List.append_nil, clientS, List.nil_append]; exact h7 σ hk
+  · intro done' hd' σ hσ
+    rw [hfin.2.2.2, List.append_nil] at hσ
+    simp only [List.append_nil, clientS, List.nil_append] at hσ ⊢
+    exact h7 S done' hd' σ hσ
   · intro p _ I _; simp [tplIds]
   · intro p hp I hI K hK
     rw [hfin.2.2.2, List.append_nil] at hp
@@ -85,9 +83,9 @@ theorem ORel_start (prog : List Op) (hw : OooWf prog) (hc : cleanOps prog = true
   · intro I hI; simp [contentIds] at hI
 
 /-- a finished stream: what the client shows is the document -/
-theorem ORel_done {E Y : Str} {b : Builder} (h : ORel E Y b) (hc : b.chunks = []) (hp : b.pendingOoo = [])
-    (hb : b.syncBuf = []) : applyScripts Y = E := by
-  obtain ⟨ys, bs, tail, cs, σ, h⟩ := h
+theorem ORel_done {prog : List Op} {done : List FId} {Y : Str} {b : Builder} (h : ORel finalSem prog done Y b)
+    (hc : b.chunks = []) (hp : b.pendingOoo = []) (hb : b.syncBuf = []) : applyScripts Y = oooDocOps prog := by
+  obtain ⟨ys, bs, tail, cs, h⟩ := h
   have hcs := chunks_nil_iff (by rw [← h.hC]; exact hc)
   obtain ⟨rfl, htail⟩ := hcs
   have hbs : itemsStr bs = [] := by rw [← h.hB]; exact hb
@@ -99,23 +97,32 @@ theorem ORel_done {E Y : Str} {b : Builder} (h : ORel E Y b) (hc : b.chunks = []
       obtain ⟨q, hq, _⟩ := (h.mem I).1 (by rw [hh]; simp)
       rw [hp] at hq; cases hq
   have hY : Y = itemsStr (ys ++ bs) := by rw [itemsStr_append, hbs, List.append_nil]; exact h.hY
-  have hdoc := h.doc
-  rw [fill_noHoles σ hno, segsStr_append, htail, List.append_nil] at hdoc
+  have hdoc : fill (fun _ => none) (clientS [] (ys ++ bs) ++ tail) = oooDocOps prog :=
+    h.sem done (fun x hx => hx) (fun _ => none) (by
+      intro I fb hg
+      have := mem_hole_holeIds hg
+      rw [hno] at this; cases this)
+  rw [fill_noHoles _ hno, segsStr_append, htail, List.append_nil] at hdoc
   rw [hY, applyScripts_items (ys ++ bs) h.okI ?_ h.ndTpl, hdoc]
   have := h.ndText
   rw [hholeT, List.append_nil] at this
   exact this
 
-structure ORun (E : Str) (r : Run) : Prop where
-  rel : ORel E (itemsOf r.out) r.b
+structure ORun (S : Sem) (prog : List Op) (r : Run) : Prop where
+  rel : ORel S prog r.done (itemsOf r.out) r.b
   alive : r.dead = false
   clean : ∀ o ∈ r.out, o ≠ Poll.panic ∧ o ≠ Poll.stuck
   fin : r.out.getLast? = some Poll.done → r.b.chunks = [] ∧ r.b.pendingOoo = [] ∧ r.b.syncBuf = []
 
-theorem ORun_poll (E : Str) (r : Run) (newly : List FId) (h : ORun E r) : ORun E (r.poll newly) := by
+theorem ORun_poll (S : Sem) (prog : List Op) (r : Run) (newly : List FId) (h : ORun S prog r) :
+    ORun S prog (r.poll newly) := by
   unfold Run.poll
   simp only [h.alive, Bool.false_eq_true, if_false]
-  have hp := pollNext_ooo { done := r.done ++ newly, now := r.now + 1 } r.b.fuelFor h.rel
+  have hrel : ORel S prog (r.done ++ newly) (itemsOf r.out) r.b := by
+    obtain ⟨ys, bs, tail, cs, hi⟩ := h.rel
+    exact ⟨ys, bs, tail, cs, hi.weaken (fun x hx => List.mem_append_left _ hx)⟩
+  have hp := pollNext_ooo { done := r.done ++ newly, now := r.now + 1 } (done := r.done ++ newly) (fun x hx => hx)
+    r.b.fuelFor hrel
   have hns := pollNext_not_stuck { done := r.done ++ newly, now := r.now + 1 } r.b.fuelFor r.b
     (by rw [fuelFor_eq]; omega)
   refine ⟨?_, ?_, ?_, ?_⟩
@@ -131,12 +138,13 @@ theorem ORun_poll (E : Str) (r : Run) (newly : List FId) (h : ORun E r) : ORun E
     apply hp.2.2
     simpa [List.getLast?_append] using hl
 
-theorem ORun_polls (E : Str) (sched : List (List FId)) : ∀ (r : Run), ORun E r → ORun E (r.polls sched) := by
+theorem ORun_polls (S : Sem) (prog : List Op) (sched : List (List FId)) :
+    ∀ (r : Run), ORun S prog r → ORun S prog (r.polls sched) := by
   induction sched with
   | nil => intro r h; exact h
-  | cons n ns ih => intro r h; exact ih _ (ORun_poll E r n h)
+  | cons n ns ih => intro r h; exact ih _ (ORun_poll S prog r n h)
 
-theorem ORun_drain (E : Str) : ∀ (k : Nat) (r : Run), ORun E r → ORun E (r.drain k) := by
+theorem ORun_drain (S : Sem) (prog : List Op) : ∀ (k : Nat) (r : Run), ORun S prog r → ORun S prog (r.drain k) := by
   intro k
   induction k with
   | zero => intro r h; exact h
@@ -147,11 +155,11 @@ theorem ORun_drain (E : Str) : ∀ (k : Nat) (r : Run), ORun E r → ORun E (r.d
     · exact h
     · exact h
     · exact h
-    · exact ih _ (ORun_poll E r [] h)
+    · exact ih _ (ORun_poll S prog r [] h)
 
-theorem ORun_start (prog : List Op) (hw : OooWf prog) (hc : cleanOps prog = true) (done0 : List FId) :
-    ORun (oooDocOps prog) (startStream true done0 prog) := by
-  have := ORel_start prog hw hc done0
+theorem ORun_start (S : Sem) (prog : List Op) (hw : OooWf prog) (hc : cleanOps prog = true) (done0 : List FId) :
+    ORun S prog (startStream true done0 prog) := by
+  have := ORel_start S prog hw hc done0
   refine ⟨by simpa [startStream, itemsOf] using this.1, rfl, by simp [startStream], by simp [startStream]⟩
 
 
